@@ -3,6 +3,11 @@
      idpOpenIDCValidCodeVerifier      -> pkce_ok
      idpOpenIDCTokenHandler           -> token_endpoint   (the checks in the code's order)
      idpOpenIDCUserinfoHandler        -> Tokens.c_userinfo
+     idpOpenIDCJWKSHandler            -> jwks_of          (one JWK per loaded public key)
+     idpOpenIDCDiscoveryHandler       -> advertised_algs  (id_token_signing_alg_values_supported)
+   cmd/keymasterd/config.go  loadSignersFromPemData, signerPublicKeyToKeymasterKeys -> load, server_of
+   cmd/keymasterd/jwt.go     publicToPreferedJoseSigAlgo -> alg_of
+   cmd/keymasterd/2fa_totp.go encryptWithPublicKeys / decryptWithPublicKeys -> can_seal / can_open
    and the whole token life cycle as a history of operations against a server that keeps no
    token state (every artefact is a self-contained signed token): exec / valid.
    External facts carried in the requests: whom checkAuth authenticated (C01/C06), whether the
@@ -23,6 +28,98 @@ Fixpoint find_client (id : bs) (l : list client) : option client :=
   | [] => None
   | c :: r => if bs_eqb (cl_id c) id then Some c else find_client id r
   end.
+
+(* ---------------------------------------------------------------- signers, KeymasterPublicKeys, JWKS *)
+
+(* the key types the daemon can be configured with: its signer (ssh_ca_filename: RSA of any size
+   or ECDSA), the optional Ed25519 SSH CA next to it, and the public keys of sibling instances
+   (keymaster_public_keys_filename, anything ssh.ParseAuthorizedKey yields; KOther = a type
+   publicToPreferedJoseSigAlgo has no algorithm for) *)
+Inductive keytype := KRsa | KP256 | KP384 | KP521 | KEd25519 | KOther.
+
+(* algorithm codes as harness/kmd/tokens.go tokAlgCodes writes them *)
+Definition a_RS256 : N := 1.
+Definition a_ES256 : N := 2.
+Definition a_ES384 : N := 3.
+Definition a_ES512 : N := 4.
+Definition a_EdDSA : N := 5.
+Definition a_invalid : N := 99.
+
+(* jwt.go publicToPreferedJoseSigAlgo *)
+Definition alg_of (t : keytype) : N :=
+  match t with
+  | KRsa => a_RS256 | KP256 => a_ES256 | KP384 => a_ES384 | KP521 => a_ES512 | KEd25519 => a_EdDSA
+  | KOther => a_invalid
+  end.
+
+Definition keytype_eqb (x y : keytype) : bool :=
+  match x, y with
+  | KRsa, KRsa | KP256, KP256 | KP384, KP384 | KP521, KP521 | KEd25519, KEd25519 | KOther, KOther => true
+  | _, _ => false
+  end.
+
+(* a public key: pk_id stands for its SSH fingerprint (getKeyFingerprint), which is also its kid *)
+Record pubkey := { pk_id : N; pk_type : keytype }.
+
+Definition pubkey_eqb (x y : pubkey) : bool := (pk_id x =? pk_id y)%N && keytype_eqb (pk_type x) (pk_type y).
+
+Record keyconf := {
+  kc_file : list pubkey;        (* keymaster_public_keys_filename, in file order *)
+  kc_ed : option pubkey;        (* ed25519_ca_keyfilename *)
+  kc_signer : pubkey }.         (* ssh_ca_filename *)
+
+(* config.go loadSignersFromPemData: the type switches on the two private keys *)
+Definition signer_type_ok (t : keytype) : bool :=
+  match t with KRsa | KP256 | KP384 | KP521 => true | _ => false end.
+Definition ed_type_ok (t : keytype) : bool := match t with KEd25519 => true | _ => false end.
+
+(* config.go signerPublicKeyToKeymasterKeys: append unless a key with that fingerprint is there *)
+Definition add_key (keys : list pubkey) (k : pubkey) : list pubkey :=
+  if existsb (pubkey_eqb k) keys then keys else keys ++ [k].
+
+(* KeymasterPublicKeys after start-up: the file, then the Ed25519 CA, then the signer.
+   None: the daemon refuses to start with these key files (a signer that is neither RSA nor ECDSA,
+   an Ed25519 file holding another key) or - KOther as signer: an ECDSA key on a curve without SSH /
+   JOSE support, e.g. P-224 - starts but can sign nothing, not even a session cookie
+   (publicToPreferedJoseSigAlgo: "invalid pub key"), so no request reaches the code below. *)
+Definition load (kc : keyconf) : option (list pubkey) :=
+  if negb (signer_type_ok (pk_type (kc_signer kc))) then None
+  else match kc_ed kc with
+  | Some e => if ed_type_ok (pk_type e) then Some (add_key (add_key (kc_file kc) e) (kc_signer kc)) else None
+  | None => Some (add_key (kc_file kc) (kc_signer kc))
+  end.
+
+(* the server record of Model/Tokens.v for a loaded key list *)
+Definition server_of (issuer userinfo : bs) (keys : list pubkey) (signer : pubkey) : server :=
+  {| s_issuer := issuer; s_keys := map (fun k => (pk_id k, alg_of (pk_type k))) keys;
+     s_signer := pk_id signer; s_signer_alg := alg_of (pk_type signer); s_userinfo := userinfo |}.
+
+(* idpOpenIDCJWKSHandler: one JWK per entry of KeymasterPublicKeys, kid = fingerprint; no key is
+   left out, whatever its type *)
+Definition jwks_of (keys : list pubkey) : list (N * keytype) := map (fun k => (pk_id k, pk_type k)) keys.
+
+(* what a relying party does with an ID token: select the published key(s) by kid, the key's
+   type must be the one the header algorithm belongs to, the signature must be intact *)
+Definition under_jwks (set : list (N * keytype)) (t : token) : bool :=
+  negb (t_tampered t) && existsb (fun e => (fst e =? t_signer t)%N && (alg_of (snd e) =? t_alg t)%N) set.
+
+(* idpOpenIDCDiscoveryHandler: id_token_signing_alg_values_supported (a constant of the code) *)
+Definition advertised_algs : list N := [a_RS256; a_ES256; a_ES384].
+Definition advertised (a : N) : bool := existsb (N.eqb a) advertised_algs.
+
+(* NOT the code: a JWKS handler that publishes only keys of advertised algorithms (refuted in
+   Props/C12.v: a P-521 signer drops out and its ID tokens verify nowhere) *)
+Definition jwks_filtered (keys : list pubkey) : list (N * keytype) :=
+  filter (fun e => advertised (alg_of (snd e))) (jwks_of keys).
+
+(* 2fa_totp.go encryptWithPublicKeys: the PKCE box key is wrapped (RSA-OAEP) for every RSA key of
+   KeymasterPublicKeys, "cannot encrypt with any key" when there is none; decryptWithPublicKeys
+   unwraps with state.Signer only if that is an RSA key.  RSA keys are exactly those whose
+   preferred algorithm is RS256. *)
+Definition can_seal (st : server) : bool := existsb (fun e => (snd e =? a_RS256)%N) (s_keys st).
+Definition can_open (st : server) : bool :=
+  (s_signer_alg st =? a_RS256)%N &&
+  existsb (fun e => (fst e =? s_signer st)%N && (snd e =? a_RS256)%N) (s_keys st).
 
 (* ---------------------------------------------------------------- authorization step *)
 
@@ -59,6 +156,7 @@ Definition authorize (i : idp) (now : Z) (user : bs) (r : areq) : option token :
   | Some _ =>
     if negb (ar_redirect_ok r) then None
     else if nonempty (ar_challenge r) && nonempty (ar_method r) && negb (bs_eqb (ar_method r) m_S256) then None
+    else if nonempty (ar_challenge r) && negb (can_seal (srv i)) then None      (* 500: no RSA key to wrap for *)
     else if nonempty (ar_audience r) && negb (ar_audience_ok r) then None
     else if (Z.of_nat (length (ar_nonce r)) <? 6) && nonempty (ar_nonce r) then None
     else Some (p_code (srv i) now (ar_client r) user (ar_scope r) (ar_redirect r) (ar_nonce r) (ar_jti r)
@@ -71,7 +169,7 @@ Definition authorize (i : idp) (now : Z) (user : bs) (r : areq) : option token :
 Record treq := {
   tr_post : bool;
   tr_grant : bs;
-  tr_redirect : bs;
+  tr_redirect : bs;              (* r.Form.Get("redirect_uri"): the FIRST value sent, [] when absent *)
   tr_code : token;
   tr_verifier : bs;
   tr_vhash : bs;                 (* BASE64URL(SHA256(tr_verifier)) *)
@@ -79,12 +177,14 @@ Record treq := {
   tr_form_client : bs;
   tr_form_secret : bs }.
 
-(* idpOpenIDCValidCodeVerifier: open the sealed box with the code's jti, then RFC 7636 4.6 *)
-Definition pkce_ok (k : codejwt) (verifier vhash : bs) : bool :=
+(* idpOpenIDCValidCodeVerifier: unwrap the box key (RSA signer only), open the sealed box with the
+   code's jti, then RFC 7636 4.6 *)
+Definition pkce_ok (st : server) (k : codejwt) (verifier vhash : bs) : bool :=
   match c_sealed k with
   | None => false
   | Some (n, chal, meth) =>
-      if negb (bs_eqb n (c_jti k)) then false
+      if negb (can_open st) then false
+      else if negb (bs_eqb n (c_jti k)) then false
       else if bs_eqb meth [] || bs_eqb meth m_plain then bs_eqb verifier chal
       else if bs_eqb meth m_S256 then bs_eqb vhash chal
       else false
@@ -102,10 +202,12 @@ Definition caller (r : treq) : (bs * bs) + Z :=
       else inl (tr_form_client r, tr_form_secret r)
   end.
 
-Definition token_endpoint (i : idp) (now : Z) (r : treq) : tresult :=
+(* [lax] = false is the code.  [lax] = true is NOT the code: the "redirect_uri is optional for
+   PKCE requests" reading of OAuth 2.1 (refuted in Props/C12.v). *)
+Definition token_endpoint_gen (lax : bool) (i : idp) (now : Z) (r : treq) : tresult :=
   if negb (tr_post r) then Refuse 400
   else if negb (bs_eqb (tr_grant r) gt_authcode) then Refuse 400
-  else if negb (nonempty (tr_redirect r)) then Refuse 400
+  else if negb (nonempty (tr_redirect r)) && negb (lax && nonempty (tr_verifier r)) then Refuse 400
   else if negb (verify (srv i) (tr_code r)) then Refuse 400
   else match dec_code (t_claims (tr_code r)) with
   | None => Refuse 400
@@ -118,17 +220,19 @@ Definition token_endpoint (i : idp) (now : Z) (r : treq) : tresult :=
       | Some c =>
         if nonempty (tr_verifier r) && nonempty (cl_secret c) then Refuse 401   (* PKCE only for secret-less clients *)
         else
-          let valid := nonempty (tr_verifier r) && pkce_ok k (tr_verifier r) (tr_vhash r) in
+          let valid := nonempty (tr_verifier r) && pkce_ok (srv i) k (tr_verifier r) (tr_vhash r) in
           let valid := if negb valid && nonempty pass then bs_eqb pass (cl_secret c) else valid in
           if negb valid then Refuse 401
           else if negb (bs_eqb id (c_sub k)) then Refuse 401
           else if c_exp k <? unix now then Refuse 401
-          else if negb (bs_eqb (c_redirect k) (tr_redirect r)) then Refuse 401
+          else if negb (lax && negb (nonempty (tr_redirect r))) && negb (bs_eqb (c_redirect k) (tr_redirect r)) then Refuse 401
           else if negb (bs_eqb (c_type k) k_code) then Refuse 401
           else Release (p_id (srv i) now id k) (p_access (srv i) now k)
       end
     end
   end.
+
+Definition token_endpoint : idp -> Z -> treq -> tresult := token_endpoint_gen false.
 
 (* ---------------------------------------------------------------- histories *)
 
